@@ -532,7 +532,8 @@ fn run_arc(c: &mut Ctx) {
     let (p0, p1, p2) = (pa(t0), pa(t0 + f1 * span), pa(t0 + span));
     // keep the triangle well conditioned for the three-point circle
     let area2 = cross2(&(p1 - p0), &(p2 - p0)).abs();
-    if area2 < 1e-2 * r * r || area2 < 1e-5 {
+    // (relative to the size of the triangle only: the construction has to work at every scale)
+    if area2 < 1e-2 * r * r {
         return;
     }
     c.family("arc/three-points");
